@@ -26,8 +26,15 @@ func format(tr *tokenReader, w io.Writer) error {
 				ew.SafeWrite([]byte{'\n'})
 			}
 			// opcode, next tokens are 'opcode', '(', hex or string lit, ')', ']'
+			// flags, next tokens are 'flags', ']'
 			opCodeBytes := t.concrete
-			for j := 0; j < 5; j++ {
+			tr.Next()
+			opCodeBytes = append(opCodeBytes, tr.Token().concrete...)
+			attrTokens := 4
+			if tr.Token().kind == tokenKindFlags {
+				attrTokens = 1
+			}
+			for j := 0; j < attrTokens; j++ {
 				tr.Next()
 				opCodeBytes = append(opCodeBytes, tr.Token().concrete...)
 			}
@@ -121,14 +128,17 @@ tokenLoop:
 			deprecatedBytes = append(deprecatedBytes, '\n')
 			enumBytes = append(enumBytes, deprecatedBytes...)
 		case tokenKindIdent:
-			// <ID> = <NUM>;
+			// <ID> = <NUM>; or, in a [flags] enum, <ID> = <EXPR>;
 			optBytes := append([]byte{'\t'}, t.concrete...)
-			for j := 0; j < 2; j++ {
-				optBytes = append(optBytes, ' ')
-				tr.Next()
-				optBytes = append(optBytes, tr.Token().concrete...)
+			prev := t.kind
+			for tr.Next() && tr.Token().kind != tokenKindSemicolon {
+				tk := tr.Token()
+				if prev != tokenKindOpenParen && tk.kind != tokenKindCloseParen {
+					optBytes = append(optBytes, ' ')
+				}
+				optBytes = append(optBytes, tk.concrete...)
+				prev = tk.kind
 			}
-			tr.Next()
 			optBytes = append(optBytes, []byte(";\n")...)
 			enumBytes = append(enumBytes, optBytes...)
 		case tokenKindCloseCurly:
